@@ -283,11 +283,10 @@ func genCopies(r *vlib.Rng, out *vlib.Out, n int, optPct int) {
 func gen(tier string, out *vlib.Out) {
 	r := vlib.NewRng(vlib.Seed())
 	thorough := tier == "thorough"
-	if os.Getenv("VERIF_C20_RECURSIVE") == "1" {
-		// first, so that the crash is attributed to it (the trace is buffered): a recursive declaration
-		// makes the constructor recurse until the stack overflows — a fatal error, not a panic
-		out.Line("new L recursive")
-	}
+	// first, so that a crash is attributed to it (the trace is buffered): a recursive declaration used
+	// to make the constructor recurse until the stack overflowed — a fatal error, not a panic
+	// (fixed in /repo by badc2e4: it now returns an error)
+	out.Line("new L recursive")
 	// corpus: the defect of DESIGN §6 #12 (struct-typed source field against a scalar destination field)
 	out.Line("new L structvsint")
 	out.Line("copy s=5 d=fresh api=copyto")
@@ -616,9 +615,7 @@ func main() {
 	outF := flag.String("out", "", "output file")
 	statsF := flag.String("stats", "", "stats json (run mode)")
 	flag.Parse()
-	if os.Getenv("VERIF_C20_RECURSIVE") == "1" {
-		debug.SetMaxStack(32 << 20) // the recursive-type probe overflows the stack: fail fast
-	}
+	debug.SetMaxStack(64 << 20) // should the recursive-type probe overflow the stack again: fail fast
 	out := vlib.Create(*outF)
 	defer out.Close()
 	switch *mode {
